@@ -44,6 +44,7 @@ type Store struct {
 	NWrites  int
 	NApplied int // write operations that took effect (commits)
 	ClockFn  func() uint64
+	TSOFault func() bool // the timestamp oracle fails when this returns true
 	NIters   int
 	Clock    uint64
 	ErrOther error              // the definite error injected by FaultErr
@@ -167,6 +168,9 @@ func (s *Store) clone() []Ent {
 func (s *Store) GetTimestampOracle(ctx context.Context) (uint64, error) {
 	s.yield("tso")
 	defer s.yield("tso-done")
+	if s.TSOFault != nil && s.TSOFault() {
+		return 0, ErrInjected
+	}
 	if s.ClockFn != nil {
 		return s.ClockFn(), nil
 	}
